@@ -21,9 +21,10 @@ const (
 	bSinkOK
 	bSinkErr
 	bSinkReturnsEvent
+	bErrorWithEvent // returns BOTH an event and an error: the error wins, the traversal ends
 )
 
-var behNames = []string{"pass", "replace", "drop", "error", "sink-ok", "sink-err", "sink-returns-event"}
+var behNames = []string{"pass", "replace", "drop", "error", "sink-ok", "sink-err", "sink-returns-event", "error-with-event"}
 
 type sendPayload struct {
 	ID int
@@ -156,10 +157,13 @@ func (n *recNode) Process(ctx context.Context, e *el.Event) (*el.Event, error) {
 		rec.OutLin = lin + ">" + n.Label
 		h.lineage[out] = rec.OutLin
 	case bDrop, bSinkOK:
-	case bError, bSinkErr:
+	case bError, bSinkErr, bErrorWithEvent:
 		h.errSeq++
 		err = fmt.Errorf("injected error #%d at node %s for %s", h.errSeq, n.Label, lin)
 		rec.Err = err
+		if b == bErrorWithEvent {
+			out = e
+		}
 	}
 	h.recs = append(h.recs, rec)
 	simrt.Yield("node:exit")
@@ -405,7 +409,7 @@ func expectedChain(objs []*recNode, lin string) []expStep {
 func chainEnd(c []expStep) (completeID *recNode, isSink bool, isErr bool) {
 	last := c[len(c)-1]
 	switch last.beh {
-	case bError, bSinkErr:
+	case bError, bSinkErr, bErrorWithEvent:
 		return nil, false, true
 	}
 	return last.node, last.node.Kind == el.NodeTypeSink, false
